@@ -36,10 +36,8 @@ import (
 
 func init() { register("C19", genC19) }
 
-const (
-	c19Slow = 60 * time.Second       // nothing legitimate takes that long
-	c19Fast = 1500 * time.Millisecond // for inputs on which the code is expected to spin
-)
+// c19Slow: nothing legitimate takes that long; an input on which the code spins shows up as `hang`.
+const c19Slow = 60 * time.Second
 
 func genC19(c *Ctx) {
 	c19IsPrime(c)
@@ -51,7 +49,7 @@ func genC19(c *Ctx) {
 	c19Derived(c)
 	c19Exported(c)
 	c19Table(c)
-	c19Hangs(c) // last: every line here leaves a spinning goroutine behind
+	c19Hangs(c) // inputs on which the unpatched code never returned
 }
 
 // ---------------------------------------------------------------- isprime / overlap
@@ -151,12 +149,6 @@ func c19GenOnce(dir int, bitsz, root uint64, k int) (primes []uint64, err error)
 	}
 }
 
-// c19GenSpins: the single-direction loops spin for ever when their direction is disabled from the start.
-func c19GenSpins(dir int, bitsz, root uint64) bool {
-	g := ring.NewNTTFriendlyPrimesGenerator(bitsz, root)
-	return (dir == 0 && !g.CheckNextPrime) || (dir == 1 && !g.CheckPrevPrime) || root == 0
-}
-
 func c19EmitGen(c *Ctx, dir int, bitsz, root uint64, k int, d time.Duration) {
 	out := c19Run(d, func() string {
 		ps, err := c19GenOnce(dir, bitsz, root, k)
@@ -180,10 +172,6 @@ func c19Gen(c *Ctx) {
 				}
 				root := uint64(1) << lr
 				k := []int{1, 2, 3, 5, 8}[c.rng.Intn(5)]
-				if c19GenSpins(dir, b, root) {
-					c.Count("gen:skipped-spinning")
-					continue
-				}
 				if b >= 64 && dir == 2 && root < 1<<12 {
 					root = 1 << 12 // keeps the scan from 1 upwards short
 				}
@@ -202,6 +190,13 @@ func c19Gen(c *Ctx) {
 	// non power-of-two and tiny roots
 	for _, root := range []uint64{1, 2, 3, 6, 96, 1000} {
 		c19EmitGen(c, 2, 20, root, 4, c19Slow)
+	}
+	// a direction disabled from the start, a zero step (these spun for ever before fix C19-4)
+	for dir := 0; dir < 3; dir++ {
+		c19EmitGen(c, dir, 63, 1<<63, 1, c19Slow)
+		c19EmitGen(c, dir, 5, 64, 1, c19Slow)
+		c19EmitGen(c, dir, 30, 0, 1, c19Slow)
+		c19EmitGen(c, dir, 16, 0, 2, c19Slow)
 	}
 }
 
@@ -231,6 +226,17 @@ func c19EmitGenModuli(c *Ctx, L int, logQ, logP []int, d time.Duration) {
 	args := fmt.Sprintf("root=%d logQ=%s logP=%s", L, IVec(logQ), IVec(logP))
 	c.Emit("genmoduli "+args, out)
 	c.Count("genmoduli:" + out[:2])
+	// the argument must be range-checked (before fix C19-3 a test constant was checked instead)
+	if L-1 < rlwe.MinLogN || L-2 > rlwe.MaxLogN {
+		d := ""
+		if ok || out == "panic" || out == "hang" {
+			d = fmt.Sprintf("GenModuli(LogNthRoot=%d,…): %s", L, out)
+			if len(d) > 120 {
+				d = d[:120]
+			}
+		}
+		c.Probe("genmoduli_checks_lognthroot", args, "C19-genmoduli-unchecked-lognthroot", d)
+	}
 	if !ok {
 		return
 	}
@@ -260,11 +266,6 @@ func c19EmitGenModuli(c *Ctx, L int, logQ, logP []int, d time.Duration) {
 		}
 	}
 	c.Probe("genmoduli_ntt_friendly", args, "C19-genmoduli-non-ntt-prime", detail)
-	// the argument is supposed to be range-checked (params.go:813 checks a test constant instead)
-	if L-1 < rlwe.MinLogN || L-2 > rlwe.MaxLogN {
-		c.Probe("genmoduli_checks_lognthroot", args, "C19-genmoduli-unchecked-lognthroot",
-			fmt.Sprintf("GenModuli(LogNthRoot=%d,…) succeeded: checkSizeParams is applied to the package variable logN=10 of test_params.go, not to the argument", L))
-	}
 }
 
 func c19GenModuli(c *Ctx) {
@@ -668,7 +669,7 @@ func c19RlweNew(c *Ctx) {
 		l.LogQ = []int{60, 60}
 		l.LogP = []int{61}
 		if r == 63 {
-			continue // LogP=61 with a root of 2^63 spins (see c19Hangs)
+			continue // covered in c19Hangs
 		}
 		c19EmitRlwe(c, l, c19Slow, "root")
 	}
@@ -789,7 +790,12 @@ func c19Schemes(c *Ctx) {
 			{"Q-and-P-share-a-prime", "C19-qp-shared-prime", bgv.ParametersLiteral{LogN: 6, Q: []uint64{a, b}, P: []uint64{b}, PlaintextModulus: 65537}, false},
 			{"62-bit-Q", "C19-modulus-over-61-bits", bgv.ParametersLiteral{LogN: 6, Q: []uint64{q62a, q62b}, P: []uint64{p}, PlaintextModulus: 65537}, false},
 		} {
-			c.Probe("accepted_then_bgv_arithmetic", fmt.Sprintf("case=%s logN=6 Q=%s P=%s t=%d", x.name, Vec(x.lit.Q), Vec(x.lit.P), x.lit.PlaintextModulus), x.key, c19BgvArithmetic(x.lit, x.inv))
+			d := c19BgvArithmetic(x.lit, x.inv)
+			if d == "rejected" && (x.key == "C19-qp-shared-prime" || x.key == "C19-modulus-over-61-bits") {
+				d = "" // literals that must not be accepted: rejection is the correct outcome (fixes C19-1, C19-2)
+				c.Count("bgv-arithmetic:rejected-as-required")
+			}
+			c.Probe("accepted_then_bgv_arithmetic", fmt.Sprintf("case=%s logN=6 Q=%s P=%s t=%d", x.name, Vec(x.lit.Q), Vec(x.lit.P), x.lit.PlaintextModulus), x.key, d)
 		}
 	}
 	for _, r := range rings {
@@ -1145,20 +1151,18 @@ func c19Table(c *Ctx) {
 	}
 }
 
-// ---------------------------------------------------------------- inputs on which the code never returns
+// ---------------------------------------------------------------- inputs on which the unpatched code never returned (fixes C19-3, C19-4)
 
 func c19Hangs(c *Ctx) {
 	good := c19PrimeWithBits(c, 40, 1<<11, nil)
 	// NthRoot = uint64(1<<64) = 0: the candidates never move
 	l := c19Lit{LogN: 10, Root: 64, LogQ: []int{30}, XsH: -1, XeS: -1}
-	c19EmitRlwe(c, l, c19Fast, "hang")
+	c19EmitRlwe(c, l, c19Slow, "hang")
 	// LogP=61 uses NextDownstreamPrimes, whose loop has no exit once 2^61+1 < NthRoot
 	l = c19Lit{LogN: 10, Root: 62, Q: []uint64{good}, LogP: []int{61}, XsH: -1, XeS: -1}
-	c19EmitRlwe(c, l, c19Fast, "hang")
-	c19EmitGen(c, 0, 63, 1<<63, 1, c19Fast)
-	c19EmitGen(c, 1, 5, 64, 1, c19Fast)
+	c19EmitRlwe(c, l, c19Slow, "hang")
 	// the same through the JSON codec of a scheme literal (LogNthRoot is a JSON field of ckks and bgv literals)
-	d := c19Run(c19Fast, func() string {
+	d := c19Run(c19Slow, func() string {
 		var p ckks.Parameters
 		_ = p.UnmarshalJSON([]byte(`{"LogN":10,"LogNthRoot":64,"LogQ":[30],"LogDefaultScale":30}`))
 		return ""
@@ -1167,7 +1171,7 @@ func c19Hangs(c *Ctx) {
 		d = `ckks.Parameters.UnmarshalJSON({"LogN":10,"LogNthRoot":64,"LogQ":[30],"LogDefaultScale":30}): ` + d
 	}
 	c.Probe("json_literal_terminates", "ckks LogNthRoot=64", "C19-literal-hang", d)
-	d = c19Run(c19Fast, func() string {
+	d = c19Run(c19Slow, func() string {
 		var p bgv.Parameters
 		_ = p.UnmarshalJSON([]byte(`{"LogN":-3,"LogNthRoot":-1,"LogQ":[30],"PlaintextModulus":65537}`))
 		return ""
